@@ -62,6 +62,14 @@ def case(draw):
             steps.append(["w"])
         else:
             steps.append(["b", draw(st.sampled_from(["+", "-"]))])
+    if nf == 16 and draw(st.booleans()):
+        # fill the whole 16-slot table first (forced edits keep a modified first buffer as the least recently used one):
+        # the boundary at which look-ups and quit checks that stop one slot short go wrong
+        pre = []
+        if draw(st.booleans()):
+            pre.append(["ed", "$a", "tfull"])
+        pre += [["e", f, True] for f in FILES[1:16]]
+        steps = pre + steps[:20]
     return {"files": files, "steps": steps}
 
 
